@@ -1428,8 +1428,58 @@ def judge_c20_group(cases, lab):
             except Exception:  # noqa  (evaluation may legitimately fail for these options)
                 pass
         if proto == pickle.HIGHEST_PROTOCOL:
-            _C20_PENDING.append((cases, blob, dicts, [(_plain(e), _plain(k)) for e, k in ref], out))
+            # a warm copy for the fresh interpreter (started with another hash seed): what was stored before
+            # pickling is served there exactly as the warm original serves it here -- same value, same body runs
+            warm = None
+            if ref[0][0]["ok"]:
+                from . import picklelib
+
+                gw = _fresh(cases[0], lab, style=style)
+                observe.call(lambda: gw.root.evaluate(copy.deepcopy(dicts[0])), lab)
+                try:
+                    wblob = pickle.dumps(gw.root, protocol=proto)
+                    n0 = len(picklelib.BODY_LOG)
+                    again = observe.call(lambda: gw.root.evaluate(copy.deepcopy(dicts[0])), lab)
+                    warm = (wblob, len(picklelib.BODY_LOG) - n0, _plain(again))
+                except Exception:  # noqa  (reported by the protocol loop above)
+                    warm = None
+            _C20_PENDING.append((cases, blob, dicts, [(_plain(e), _plain(k)) for e, k in ref], out, warm))
+    _c20_effects(cases, dicts, first, lab, style)
     return [(c, out[id(c)]) for c in cases]
+
+
+def _c20_effects(cases, dicts, res, lab, style):
+    """Effects survive the round trip like everything else: a copy runs its effects as often as the original,
+    and a dataset whose effects were switched off before pickling keeps them switched off."""
+    import pickle
+
+    from . import picklelib
+
+    nodes = cases[0]["nodes"]
+    if not any(nd["k"] == "ds" and nd.get("effs") for nd in nodes):
+        return
+
+    def run(root):
+        del picklelib.EFFECT_LOG[:]
+        for o in dicts:
+            observe.call(lambda: root.evaluate(copy.deepcopy(o)), lab)
+        return len(picklelib.EFFECT_LOG)
+
+    for disabled in (False, True):
+        g0, g1 = _fresh(cases[0], lab, style=style), _fresh(cases[0], lab, style=style)
+        if disabled:
+            for g in (g0, g1):
+                for i, nd in enumerate(nodes, start=1):
+                    if nd["k"] == "ds":
+                        g.obj[i].disable_effects()
+        try:
+            cp = pickle.loads(pickle.dumps(g1.root))
+        except Exception:  # noqa  (reported elsewhere)
+            return
+        n_orig, n_copy = run(g0.root), run(cp)
+        if n_orig != n_copy:
+            res.bad("copy-effects", "over the same dictionaries the original ran %d effects, its pickled copy %d (%s)" % (
+                n_orig, n_copy, "effects had been disabled with disable_effects() before pickling" if disabled else "effects enabled"))
 
 
 def c20_fixed_probes(prop, tier, sc, rep):
@@ -1560,16 +1610,23 @@ def finish_chunk(prop, lab):
     try:
         inp, outp = os.path.join(d, "in.pkl"), os.path.join(d, "out.json")
         with open(inp, "wb") as f:
-            pickle.dump([(i, blob, dicts) for i, (cs, blob, dicts, ref, out) in enumerate(pending)], f)
-        env = dict(os.environ)
+            pickle.dump([(i, p_[1], p_[2], p_[5][0] if p_[5] else None) for i, p_ in enumerate(pending)], f)
+        # the fresh interpreter gets another hash seed than this one: nothing stored may depend on it
+        env = dict(os.environ, PYTHONHASHSEED="4242" if os.environ.get("PYTHONHASHSEED") != "4242" else "7")
         r = subprocess.run([sys.executable, "-m", "harness.pickle_child", inp, outp], cwd=VERIF, env=env,
                            capture_output=True, text=True, timeout=600)
         if r.returncode != 0:
-            for cs, blob, dicts, ref, out in pending:
+            for cs, blob, dicts, ref, out, warm in pending:
                 out[id(cs[0])].bad("fresh-process", "the child interpreter failed: %s" % r.stderr[-300:])
             return
         for item in json.load(open(outp)):
-            cs, blob, dicts, ref, out = pending[item["id"]]
+            cs, blob, dicts, ref, out, warm = pending[item["id"]]
+            if warm is not None and "warm_error" not in item and "warm_runs" in item:
+                if item["warm_eval"] != warm[2]:
+                    out[id(cs[0])].bad("fresh-process-warm", "a copy pickled with a warm cache gives %s in a fresh interpreter, the warm original %s" % (item["warm_eval"], warm[2]))
+                elif item["warm_runs"] != warm[1]:
+                    out[id(cs[0])].bad("fresh-process-warm", "asked again for what was stored before pickling, the copy ran %d bodies in a fresh interpreter (other hash seed); the warm original runs %d" % (
+                        item["warm_runs"], warm[1]))
             if "load_error" in item:
                 out[id(cs[0])].bad("fresh-process-load", "unpickling in a fresh interpreter failed: %s" % item["load_error"])
                 continue
